@@ -162,6 +162,9 @@ class CallMixin(ExprMixin):
                 name = d[1] + '.' + meth
                 if name in self.spec.builtins:
                     return self.spec.builtins[name](self, n, awaited, d[2])
+            name = 'py:%s.%s' % (d[0], meth)
+            if name in self.spec.builtins:
+                return self.spec.builtins[name](self, n, awaited, recv)
             raise Unsupported('method %s on %r' % (meth, d))
         if k == 'obj':
             cls = recv.ty.cls
